@@ -4,6 +4,7 @@ import RasnModel.Proofs.Values
 import RasnModel.Proofs.GenValues
 import RasnModel.Proofs.TsStrings
 import RasnModel.Proofs.Octets
+import RasnModel.Proofs.Lines
 /-
   C07 — value assignments and DEFAULTs denote the source abstract value (leaf conversions).
   `hexToBools` and `wellKnown` are REGENERATED from /repo on every run. Composite values
@@ -486,5 +487,31 @@ theorem C07_old_partial_octet_counterexample :
 example : bitsToOctets 3 (bitStringValue 'H' ['A', 'B', 'C']) = some [171, 192] := by decide
 
 end Octets
+
+/-! ### character strings written over several lines (`Lexer/Lines`) -/
+section Lines
+open Lexer.Lines
+
+/-- **C07 (strings over several lines).** However a character string is broken over lines — any spacing before each
+    line break, any end-of-line character (LF, CR, VT, FF; CR LF is two of them around an empty line), any indentation
+    behind it, blank lines included, any number of lines — the lexer's joining yields the concatenation of the lines
+    (X.680 12.14.1), provided the line texts themselves do not begin or end in spacing where they meet a line break. -/
+theorem C07_multiline_string_exact (l0 : List Char) (bs : List Break) (h0 : noNl l0) (he : endOk l0)
+    (hb : ∀ b ∈ bs, BreakOk b) : joinLines (layout l0 bs) = content l0 bs :=
+  joinLines_layout l0 bs h0 he hb
+
+/-- a string written on one line is left alone, spacing at its edges included -/
+theorem C07_one_line_string_untouched (s : List Char) (h : noNl s) : joinLines s = s :=
+  joinLines_one_line s h
+
+/-- the lexer as it was (a TODO in the source): line break and indentation stayed in the value -/
+theorem C07_old_multiline_counterexample :
+    layout ['a'] [⟨[' '], '\n', [' ', ' '], ['b']⟩] ≠ content ['a'] [⟨[' '], '\n', [' ', ' '], ['b']⟩] := by decide
+
+/-- non-vacuity: `"ab <LF>    cd<CR><LF>  e"` stands for `abcde` -/
+example : joinLines (layout ['a', 'b'] [⟨[' '], '\n', [' ', ' ', ' ', ' '], ['c', 'd']⟩, ⟨[], '\r', [], []⟩, ⟨[], '\n', [' ', ' '], ['e']⟩])
+    = ['a', 'b', 'c', 'd', 'e'] := by decide
+
+end Lines
 
 end Props.C07
